@@ -434,6 +434,10 @@ theorem both_piped_audited : Pipe.bothPiped Extracted.gitCommands = Pipe.audited
 /-- no reader loop over a child's stdout is left early (extracted on every run) -/
 theorem reader_breaks_audited : Extracted.readerBreaks = Pipe.auditedReaderBreaks := by decide +kernel
 
+/-- no child can block on a stderr pipe that nobody reads (extracted on every run) -/
+theorem stderr_never_blocks :
+    Pipe.stderrNeverBlocks Pipe.auditedPipedStderr Pipe.auditedWrapped Extracted.gitCommands = true := by decide +kernel
+
 /-! ### non-vacuity: concrete executions -/
 
 /-- a small write-all run that deadlocks: A = 1, B = 1, r = 1, n = 4 — stuck after 5 steps with a request unsent -/
